@@ -229,6 +229,23 @@ PROBES = [0, 9, 10, 32, 0x2f, 0x30, 0x39, 0x40, 0x41, 0x5a, 0x5f, 0x60, 0x61, 0x
           0xf4, 0xf5, 0xff]
 
 
+def access_strings(cap):
+    """shortest byte strings leading from the root to every state of the captured graph"""
+    st = cap.states
+    access = {cap.root: []}
+    q = deque([cap.root])
+    while q:
+        s = q.popleft()
+        for (t, ranges) in st[s]['edges']:
+            if t not in access:
+                c = next((x for lo, hi in ranges for x in (0x61, 0x62, 0x63, 0x64, 0x30, 0x20) if lo <= x <= hi), None)
+                if c is None:
+                    c = next((x for lo, hi in ranges for x in range(lo, hi + 1) if 32 <= x < 127), ranges[0][0])
+                access[t] = access[s] + [c]
+                q.append(t)
+    return access
+
+
 def graph_inputs(cap, utf8, all_bytes=False, max_states=400):
     """transition-directed inputs from the captured graph: access(s)·b and self-loop run lengths"""
     st = cap.states
